@@ -29,6 +29,16 @@ var (
 	Hook    func(site int) // called at every scheduling point while SchedOn
 )
 
+// ResetHooks empty the package-level state the shims keep (pools); Reset
+// runs them: called by the harness before every execution.
+var ResetHooks []func()
+
+func Reset() {
+	for _, f := range ResetHooks {
+		f()
+	}
+}
+
 func Tick(site int) {
 	if FuelOn {
 		Used++
